@@ -545,6 +545,9 @@ func genGhost(fset *token.FileSet, dir string, specs []*FuncSpec) ([]string, err
 			isParam[strings.TrimSuffix(recvCall, ".")] = true
 		}
 		for _, n := range shapeNames {
+			n0 := n
+			n = strings.TrimLeft(n, "*")
+			sp.Shape[n] = sp.Shape[n0]
 			// (a shape on a package-level variable cannot be imposed on the native run)
 			if regexp.MustCompile(`^[A-Za-z_][A-Za-z_0-9.]*$`).MatchString(n) && isParam[strings.SplitN(n, ".", 2)[0]] {
 				if contains(sp.MayNil, n) {
@@ -989,6 +992,8 @@ func (p *Loaded) runInit(pkg *ssa.Package) *initRun {
 		p.initOK[pkg] = true
 		return nil
 	}
+	savedCur := curExec
+	defer func() { curExec = savedCur }()
 	ix := NewExec(p)
 	ix.lenient = true
 	ix.initPkg = pkg
